@@ -841,7 +841,7 @@ example : TransformSpec exampleTransform examplePts := exampleTransform_spec
 
 end transfer2
 
-/-! ### S4: `Polynomial::pow` regenerated from source
+/-! ### S4: `Polynomial::pow` and `Polynomial::fast_pow` regenerated from source
 
 `pow` (the `let Some(bit_length) = pow.checked_ilog2() else { return one }` special case `0⁰ = 1`, the zero-base early return, the
 square-and-multiply loop `for i in 0..=bit_length` with `pow >> (bit_length - i) & 1`, `slow_square` and `*`) is regenerated
@@ -855,6 +855,17 @@ theorem gen_pow_eq_model {α : Type} (F : FieldOps α) (h : AddLaws F) (p : List
 example : TF.Gen.Poly.pow bfieldOps [1, 1, 0] 5 = some [1, 5, 10, 10, 5, 1] ∧ pow bfieldOps [1, 1, 0] 5 = [1, 5, 10, 10, 5, 1] ∧
     TF.Gen.Poly.pow bfieldOps [0, 0] 0 = some [1] ∧ TF.Gen.Poly.pow bfieldOps [0, 0] 3 = some [] := by decide
 
+/-- **regenerated `fast_pow` = hand model `fastPow`** (at the squaring cut-off 64 = `SQUARE_CUTOFF` and the regenerated
+    multiplication threshold), on top of the regenerated `square` / `multiply` / `fast_square` / `fast_multiply` and arbitrary
+    transforms: every `u32` exponent, every storage, including every panic of the transforms -/
+theorem gen_fast_pow_eq_model {α : Type} (F : FieldOps α) (h : AddLaws F) (T : Transform α) (p : List α) (e : Nat)
+    (he : e < 2 ^ 32) :
+    TF.Gen.Poly.fast_pow F (TF.Gen.Poly.fast_square F T.ntt T.intt)
+        (TF.Gen.Poly.fast_multiply F F F F.mul T.ntt T.ntt T.intt) p e
+      = fastPow F 64 (TF.Gen.FAST_MULTIPLY_CUTOFF_THRESHOLD : Int) T p e := fast_pow_eq F h T p e he
+example : TF.Gen.Poly.fast_pow bfieldOps (fun _ => none) (fun _ _ => none) [1, 1, 0] 5 = some [1, 5, 10, 10, 5, 1] ∧
+    64 = TF.Gen.SQUARE_CUTOFF := by decide
+
 section transfer3
 variable {K : Type} [Field K] (root : Nat → Option K)
 local notation "FK" => FieldOps.ofField K root
@@ -867,6 +878,16 @@ theorem gen_pow_transfer (p : List K) (e : Nat) (he : e < 2 ^ 32) :
   ⟨_, gen_pow_eq_model FK (add_laws_of_field root) p e he, pow_spec root p e⟩
 example : ∃ r, TF.Gen.Poly.pow (FieldOps.ofField ℚ) [1, 2, 0] 7 = some r ∧ denote r = denote ([1, 2, 0] : List ℚ) ^ 7 :=
   gen_pow_transfer _ _ _ (by norm_num)
+
+/-- **`fast_pow_spec` for the regenerated code**: over every field and every transform meeting `TransformSpec`, whenever the
+    regenerated `fast_pow` returns it returns the `e`-th power in `K[X]` -/
+theorem gen_fast_pow_transfer {T : Transform K} {pts : Nat → Nat → K} (hT : TransformSpec T pts) (p r : List K) (e : Nat)
+    (he : e < 2 ^ 32)
+    (h : TF.Gen.Poly.fast_pow FK (TF.Gen.Poly.fast_square FK T.ntt T.intt)
+        (TF.Gen.Poly.fast_multiply FK FK FK (FK).mul T.ntt T.ntt T.intt) p e = some r) : denote r = denote p ^ e := by
+  rw [gen_fast_pow_eq_model FK (add_laws_of_field root) T p e he] at h
+  exact fast_pow_spec root hT 64 _ p e r h
+example : TransformSpec exampleTransform examplePts := exampleTransform_spec
 
 end transfer3
 end TF.C07
